@@ -341,8 +341,22 @@ func (g *gen) section(p *pkg, first bool, earlier []*pkg) {
 		g.e.close()
 		g.e.nl()
 	}
+	twin := g.twin
+	g.twin = nil
+	if twin != nil {
+		// same leading text as the twin file: pad with comment lines up to the
+		// line its first definition stands on; no use-package lines
+		have := strings.Count(g.e.b.String(), "\n")
+		if have > twin.lines || p.own[twin.name] != nil || p.imports[twin.name] != nil || p.name == twin.pkg {
+			twin = nil
+		} else {
+			for ; have < twin.lines; have++ {
+				g.e.w("; header\n")
+			}
+		}
+	}
 	for _, q := range earlier {
-		if q == p || len(q.exports) == 0 || !g.chance(60) {
+		if twin != nil || q == p || len(q.exports) == 0 || !g.chance(60) {
 			continue
 		}
 		okAll := true
@@ -372,6 +386,11 @@ func (g *gen) section(p *pkg, first bool, earlier []*pkg) {
 	// plan
 	n := 1 + g.intn(4)
 	var plan []planned
+	if twin != nil {
+		g.feat("twin-file")
+		b := &bind{id: g.newID(), name: twin.name, kind: twin.kind, global: true, pkg: p.name, file: g.fileIdx, isMacro: twin.kind == "macro"}
+		plan = append(plan, planned{b, false})
+	}
 	for i := 0; i < n; i++ {
 		kind := "defun"
 		switch k := g.intn(10); {
@@ -391,6 +410,9 @@ func (g *gen) section(p *pkg, first bool, earlier []*pkg) {
 		plan = append(plan, planned{b, p.name != "user" && g.chance(45) || p.name == "user" && g.chance(10)})
 	}
 	exportAt := g.intn(len(plan) + 1)
+	if twin != nil && exportAt == 0 {
+		exportAt = len(plan)
+	}
 	writeExport := func() {
 		var ex []*bind
 		for _, pl := range plan {
@@ -416,8 +438,16 @@ func (g *gen) section(p *pkg, first bool, earlier []*pkg) {
 		if i == exportAt {
 			writeExport()
 		}
-		g.comment()
+		if !(twin != nil && i == 0) {
+			g.comment()
+		}
 		b := pl.b
+		if first && i == 0 {
+			g.lead = &leadInfo{lines: strings.Count(g.e.b.String(), "\n"), kind: b.kind, name: b.name, pkg: p.name}
+			if pl.export || g.excl[b.name] {
+				g.lead = nil // preserved names cannot collide
+			}
+		}
 		switch b.kind {
 		case "defun":
 			g.defun(b)
@@ -571,9 +601,32 @@ func genCase() *rapid.Generator[Case] {
 		nfiles := 1 + g.intn(3)
 		var c Case
 		var loaded []*pkg // packages with a completed section in an earlier file
+		var leads []*leadInfo
+		usedPath := map[string]bool{}
 		for fi := 0; fi < nfiles; fi++ {
 			g.fileIdx = fi
 			g.e = &em{}
+			g.lead = nil
+			// file names: directories and base names as in a one-directory-
+			// per-package layout; a third of the later files deliberately
+			// repeat an earlier file's base name and leading text
+			var twin *leadInfo
+			if len(leads) > 0 && len(pks) > 1 && g.chance(35) {
+				twin = leads[g.intn(len(leads))]
+			}
+			path := ""
+			for tries := 0; path == "" || usedPath[path]; tries++ {
+				base := g.pick(basePool)
+				if twin != nil {
+					base = twin.base
+				}
+				path = g.pick(dirPool) + "/" + base
+				if tries > 8 {
+					path = fmt.Sprintf("d%d/%s", fi, base)
+				}
+			}
+			usedPath[path] = true
+			curBase := path[strings.LastIndex(path, "/")+1:]
 			g.budget = 60 + g.intn(60)
 			nsec := 1
 			if g.chance(30) {
@@ -592,6 +645,13 @@ func genCase() *rapid.Generator[Case] {
 						g.feat("samefile-import")
 					}
 				}
+				if s == 0 && twin != nil {
+					// the twin lives in another package than its original
+					for tries := 0; tries < 6 && p.name == twin.pkg; tries++ {
+						p = pks[g.intn(len(pks))]
+					}
+					g.twin = twin
+				}
 				g.section(p, s == 0, earlier)
 				inFile = append(inFile, p)
 			}
@@ -605,7 +665,11 @@ func genCase() *rapid.Generator[Case] {
 					loaded = append(loaded, p)
 				}
 			}
-			c.Files = append(c.Files, File{Path: fmt.Sprintf("f%d.lisp", fi+1), Src: g.e.b.String(), Occ: g.e.occ})
+			if g.lead != nil {
+				g.lead.base = curBase
+				leads = append(leads, g.lead)
+			}
+			c.Files = append(c.Files, File{Path: path, Src: g.e.b.String(), Occ: g.e.occ})
 		}
 		if g.chance(60) {
 			c.Client, c.ClientRefs = g.client()
